@@ -108,6 +108,15 @@ func reachFromBlockUp(b *ssa.BasicBlock, target, avoid ipred) ssa.Instruction {
 
 func isReturn(in ssa.Instruction) bool { _, ok := in.(*ssa.Return); return ok }
 
+// isEnd: the activity being followed ends here: a return, or (in upward searches) the point
+// where an event loop takes its next event.
+func isEnd(in ssa.Instruction) bool {
+	if _, ok := in.(*ssa.Return); ok {
+		return true
+	}
+	return theProg != nil && theProg.boundary != nil && theProg.boundary[in]
+}
+
 // mustPrecede: every path from fn's entry to `b` passes through an instruction in A
 // (A may lie inside a function called on the way).
 func mustPrecede(fn *ssa.Function, A ipred, b ssa.Instruction) bool {
@@ -117,7 +126,7 @@ func mustPrecede(fn *ssa.Function, A ipred, b ssa.Instruction) bool {
 // mustFollow: every path from `a` to the end of the enclosing activity passes through an
 // instruction in B. Returns the offending return if not.
 func mustFollow(a ssa.Instruction, B ipred) ssa.Instruction {
-	return reachFromUp(a, isReturn, B)
+	return reachFromUp(a, isEnd, B)
 }
 
 // inLoop reports whether the block is part of a CFG cycle.
